@@ -89,6 +89,43 @@ def close_over_callees(repo, specs, units, sel, run):
     return sel, [results[R.unit_label(u)] for u in sel]
 
 
+def conformance(pid, res, repo_root, jobs=16):
+    """Thorough tier: CPython cross-check of the engine.  Every unit the verifier has fully discharged and that can be
+    executed natively (pure codec functions and PDU methods) is run on random / boundary inputs satisfying its
+    `requires`, and its `raises` / `ensures` clauses are evaluated natively on the real function's outcome.  A failing
+    input for a contract the engine has PROVED means that the engine (or the native evaluator of the sidecar language)
+    misrepresents Python: a checker error, never a verdict about the repository.  Returns (samples, errors)."""
+    import subprocess, tempfile
+    from concurrent.futures import ThreadPoolExecutor
+    todo = [r for r in res if r.get('battery') and r['status'] == 'ok'
+            and all(o['result'] == 'proved' for o in r['obligations'] if o['kind'] != 'canary')]
+    d = tempfile.mkdtemp(prefix='pyvc_conf_', dir='/tmp')
+
+    def one(r):
+        path = os.path.join(d, hashlib.sha1(r['label'].encode()).hexdigest()[:12] + '.json')
+        doc = {'property': pid, 'unit': r['label'], 'obligation': '(all, cross-check)', 'key': r['label'], 'result': 'proved', 'concrete': None,
+               'repo_root': repo_root, 'unit_spec': r.get('unit'), 'battery': dict(r['battery'], samples=150)}
+        json.dump(doc, open(path, 'w'))
+        try:
+            out = subprocess.run(['/venv/bin/python', '-m', 'pyvc.replay', path, '--battery'], cwd=VERIF, capture_output=True, text=True,
+                                 timeout=600, env=dict(os.environ, PYTHONPATH=VERIF))
+        except Exception as e:
+            return r['label'], 2, 0, repr(e)[:200]
+        m = re.search(r'among (\d+) valid samples', out.stdout)
+        return r['label'], out.returncode, int(m.group(1)) if m else 0, out.stdout.strip()[-300:]
+    samples, errors = 0, []
+    try:
+        with ThreadPoolExecutor(max_workers=jobs) as ex:
+            for (label, rc, n, tail) in ex.map(one, todo):
+                samples += n
+                if rc == 1:
+                    errors.append((label, 'the verifier proved this contract but a native run violates it: ' + tail))
+    finally:
+        import shutil
+        shutil.rmtree(d, ignore_errors=True)
+    return samples, len(todo), errors
+
+
 def load_known(path=None):
     path = path or os.path.join(VERIF, 'known_findings.json')
     if not os.path.exists(path):
@@ -189,6 +226,13 @@ def main(argv):
     known = load_known()
     ledger = load_ledger().get(pid)
     code, report = evaluate(pid, res, known, ledger, repo_root, tier)
+    if tier == 'thorough':
+        n, units_x, errs = conformance(pid, res, repo_root, jobs)
+        report['conformance'] = {'units_cross_checked_natively': units_x, 'valid_samples': n, 'disagreements': len(errs)}
+        for (label, what) in errs:
+            report['lines'].append('CHECKER-ERROR %s: %s' % (label, what[:400]))
+        if errs and code == 0:
+            code = 3
     if not no_evidence:
         report['units_from_cache'] = ncached
         write_evidence(pid, tier, seed, res, report, time.time() - t0, specs, repo_root)
@@ -428,6 +472,7 @@ def write_evidence(pid, tier, seed, res, report, wall, specs, repo_root):
             'failed': [k for (_, _, k) in report['failed']][:50],
             'known_findings_printed': sorted(set(f['id'] for (f, _, _) in report['known_hits'])),
             'bounded_standins': [],
+            'cpython_cross_check': report.get('conformance', 'thorough tier only'),
             'extraction_drops': __import__('pyvc.front', fromlist=['DROPPED']).DROPPED,
             'repo_root': repo_root,
         },
